@@ -68,7 +68,7 @@ def random_pool(rng, kind, cap, el, nops):
 
 def check(ctx):
     drv = build(ctx)
-    r = ctx.tlc("Alloc", "AllocMCthorough.cfg" if ctx.thorough else "AllocMC.cfg", workers=16, timeout=2400, xmx="16g")
+    r = ctx.tlc("Alloc", "AllocMCthorough.cfg" if ctx.thorough else "AllocMC.cfg", workers=16, timeout=2400, xmx="16g", coverage=not ctx.thorough)
     if not r.ok:
         ctx.model_violation(r, "heap invariants")
     if ctx.thorough:   # beyond the exhaustive bound: random behaviours with 6 live blocks, 5 request sizes, larger arena
